@@ -73,6 +73,8 @@ class Obl:
         self.fn = fn
         self.clause = clause
         self.expect = 'unsat'   # cover obligations expect 'sat'
+        self.skolems = []
+        self.ninst = 0
         self.inputs = None      # replay info
 
 
@@ -114,6 +116,9 @@ class VC:
         self.quant_axioms = []
         self.tid_facts = set()
         self.def_memo = {}
+        self.qas = []
+        self.qa_cache = {}
+        self.inst_terms = []
         self.unfold_cache = {}
         self.used_lemmas = set()
         self.lemma_limit = None
@@ -175,6 +180,66 @@ class VC:
         if t != 'true':
             self.assumes.append(t)
 
+    def assume_forall(self, guard, fn, nvars=1):
+        """universally quantified fact given as a Python closure over index terms; used through ground
+        instantiation only (goal skolems, their neighbours, index terms)"""
+        self.register_qa({'vars': [('i%d' % k, 'Int', 'int') for k in range(nvars)], 'fn': fn, 'guard': guard})
+
+    def register_qa(self, qa):
+        qa['id'] = len(self.qas)
+        self.qas.append(qa)
+        self.assumes.append(('qa', qa))
+
+    def instantiate_qas(self, obl):
+        """ground instances of assumed universal clauses at the goal's skolem constants and at index terms"""
+        from .speceval import SpecEval
+        import itertools
+        out = []
+        cands = {}
+        for v in getattr(obl, 'skolems', []):
+            cands.setdefault(v.sort, []).append(v.term)
+        for v in getattr(obl, 'skolems', []):
+            if v.sort == 'Int':
+                cands[v.sort].append('(- %s 1)' % v.term)
+                cands[v.sort].append('(+ %s 1)' % v.term)
+        cands.setdefault('Int', []).append('0')
+        for (sort, term) in self.inst_terms[:obl.ninst]:
+            l = cands.setdefault(sort, [])
+            if term not in l and len(l) < 10:
+                l.append(term)
+        for a in self.assumes[:obl.nassume]:
+            if not isinstance(a, tuple):
+                continue
+            qa = a[1]
+            lists = [cands.get(s, []) for (_, s, _) in qa['vars']]
+            if any(not l for l in lists):
+                continue
+            n = 0
+            for combo in itertools.product(*lists):
+                n += 1
+                if n > 40:
+                    break
+                key = (qa['id'], combo)
+                if key not in self.qa_cache and 'fn' in qa:
+                    self.qa_cache[key] = imp(qa['guard'], qa['fn'](*combo))
+                if key not in self.qa_cache:
+                    env = dict(qa['env'])
+                    for (vn, vs, vts), t in zip(qa['vars'], combo):
+                        env[vn] = V(t, vs, vts)
+                    ev = SpecEval(self, qa['pkg'], env, qa['st'], qa['old'], qa['old_env'], rec_level=qa['rec_level'])
+                    ev.mode = 'assume'
+                    ev.guard = qa['guard']
+                    ev.ante = list(qa['ante'])
+                    for (vn, vs, vts) in qa['vars']:
+                        ev.qvars[vn] = env[vn]
+                    ev.qvars.update(qa.get('qvars', {}))
+                    n0 = len(self.assumes)
+                    body = ev.eval(qa['body'])
+                    # nested universal clauses registered during instantiation stay available to later queries only
+                    self.qa_cache[key] = imp(qa['guard'], imp(and_(*qa['ante']), body.term))
+                out.append(self.qa_cache[key])
+        return out
+
     def site(self, kind):
         n = self.site_counters.get(kind, 0)
         self.site_counters[kind] = n + 1
@@ -185,6 +250,7 @@ class VC:
         if clause:
             nm += ':' + re.sub(r'\s+', ' ', clause)
         o = Obl(nm, kind, guard, goal, len(self.assumes), list(tags), line, self.fname, clause)
+        o.ninst = len(self.inst_terms)
         self.obls.append(o)
         return o
 
@@ -196,10 +262,10 @@ class VC:
             c = self.declare('strlit', 'Str')
             self.strlits[s] = c
             runes = [ord(ch) for ch in s]
-            self.assume('(= (str.rlen %s) %d)' % (c, len(runes)))
-            self.assume('(= (str.blen %s) %d)' % (c, len(s.encode('utf-8', 'surrogatepass'))))
+            self.assume('(= (gs.rlen %s) %d)' % (c, len(runes)))
+            self.assume('(= (gs.blen %s) %d)' % (c, len(s.encode('utf-8', 'surrogatepass'))))
             for i, r in enumerate(runes):
-                self.assume('(= (str.at %s %d) %d)' % (c, i, r))
+                self.assume('(= (gs.at %s %d) %d)' % (c, i, r))
             for o, oc in self.strlits.items():
                 if o != s:
                     self.assume('(not (= %s %s))' % (c, oc))
@@ -210,6 +276,8 @@ class VC:
         prog = self.prog
         if ts.startswith('seq['):
             return 'Seq:' + self.sort_of(ts[4:-1])
+        if ts.startswith('fmap['):
+            return 'Arr:' + self.sort_of(ts[5:-1])
         td = prog.under(ts)
         k = td['k']
         if k == 'basic':
@@ -421,6 +489,7 @@ class VC:
 
     def query(self, obl, fuel=1):
         from .smt import PRELUDE
+        qinst = self.instantiate_qas(obl)
         rec_axioms = self.unfold_recs(fuel)
         out = [PRELUDE]
         for es in sorted(self.seq_sorts):
@@ -433,6 +502,9 @@ class VC:
         for a in rec_axioms:
             out.append('(assert %s)' % a)
         for a in self.assumes[:obl.nassume]:
+            if not isinstance(a, tuple):
+                out.append('(assert %s)' % a)
+        for a in qinst:
             out.append('(assert %s)' % a)
         if obl.expect == 'sat':
             out.append('(assert %s)' % and_(obl.guard, obl.goal))
